@@ -1,10 +1,354 @@
-//! C38 — not built yet.
+//! C38 The object size limit is applied exactly as configured.
+//!
+//! Full product limit x size x carrier x encoding, run for real: HTTPS trust anchor download
+//! (`Run::load_ta`), object in an RRDP snapshot, object in an RRDP delta (snapshot withheld), and
+//! the real `/usr/bin/rsync` (local-path source through a wrapper, routinator's own `--max-size`).
+//! Oracle: the object as published is obtained  <=>  size <= L or the limit is disabled.
+
+use std::collections::BTreeSet;
+use std::os::unix::fs::PermissionsExt;
+use std::path::Path;
+
+use bytes::Bytes;
+use proptest::prelude::*;
+use routinator::collector::Collector;
+use rpki::repository::tal::TalUri;
+use rpki::uri;
+use serde::{Deserialize, Serialize};
 
 use crate::core::*;
+use crate::erun::scratch_base;
+use crate::httpsrv::*;
 
-pub const IMPLEMENTED: bool = false;
+pub const IMPLEMENTED: bool = true;
 
-pub fn run(_ctx: &Ctx, _rep: &mut Report, _replay: Option<&serde_json::Value>) {
-    eprintln!("C38: check not implemented");
-    std::process::exit(2);
+pub const KEY_TA_CL: &str = "C38/limit=disabled/carrier=ta-https/enc=content-length/refused";
+
+#[derive(Serialize, Deserialize, Clone, Copy, Debug, PartialEq, Eq, PartialOrd, Ord)]
+pub enum Carrier {
+    TaHttps,
+    Snapshot,
+    Delta,
+    RsyncReal,
+}
+
+impl Carrier {
+    fn name(self) -> &'static str {
+        match self {
+            Carrier::TaHttps => "ta-https",
+            Carrier::Snapshot => "rrdp-snapshot",
+            Carrier::Delta => "rrdp-delta",
+            Carrier::RsyncReal => "rsync",
+        }
+    }
+}
+
+#[derive(Serialize, Deserialize, Clone, Debug, PartialEq, Eq, PartialOrd, Ord)]
+pub struct Case {
+    /// None = limit disabled (config value 0)
+    pub limit: Option<u64>,
+    pub size: u64,
+    pub carrier: Carrier,
+    pub chunked: bool,
+}
+
+fn body(size: u64) -> Vec<u8> {
+    let mut v = vec![0u8; size as usize];
+    for (i, b) in v.iter_mut().enumerate() {
+        *b = (i % 251) as u8 ^ (i >> 16) as u8;
+    }
+    v
+}
+
+fn limit_name(l: Option<u64>) -> String {
+    match l {
+        None => "disabled".into(),
+        Some(l) => l.to_string(),
+    }
+}
+
+fn key(c: &Case, what: &str) -> String {
+    let rel = match c.limit {
+        None => "any".to_string(),
+        Some(l) if c.size == l => "L".into(),
+        Some(l) if c.size + 1 == l => "L-1".into(),
+        Some(l) if c.size == l + 1 => "L+1".into(),
+        Some(l) if c.size == 2 * l => "2L".into(),
+        Some(l) if c.size < l => "below".into(),
+        Some(_) => "above".into(),
+    };
+    let enc = if c.carrier == Carrier::RsyncReal { "n/a" } else if c.chunked { "chunked" } else { "content-length" };
+    if c.limit.is_none() && c.carrier == Carrier::TaHttps && !c.chunked && what == "refused" {
+        return KEY_TA_CL.to_string();
+    }
+    format!("C38/limit={}/size={}/carrier={}/enc={}/{}", limit_name(c.limit), rel, c.carrier.name(), enc, what)
+}
+
+/// Writes the wrapper that turns routinator's rsync invocation into a local-path copy by the real rsync.
+fn write_rsync_wrapper(dir: &Path) -> std::path::PathBuf {
+    let root = dir.join("srv");
+    let log = dir.join("rsync.log");
+    let path = dir.join("rsync-wrapper.sh");
+    // routinator calls: <cmd> -h   and   <cmd> [args…] -rtO --delete rsync://host/module/ <dest>/
+    // `--contimeout` is only valid with a daemon, so it is dropped; everything else (incl. --max-size) is kept.
+    let script = format!(
+        "#!/bin/bash\nif [ \"$1\" = \"-h\" ]; then exec /usr/bin/rsync -h; fi\nargs=()\nfor a in \"$@\"; do\n  case \"$a\" in\n    --contimeout=*) ;;\n    rsync://*) echo \"${{a#rsync://}}\" >> '{log}'; rest=\"${{a#rsync://}}\"; args+=(\"{root}/$rest\") ;;\n    *) args+=(\"$a\") ;;\n  esac\ndone\necho \"ARGS $*\" >> '{log}'\nexec /usr/bin/rsync \"${{args[@]}}\"\n",
+        log = log.display(),
+        root = root.display()
+    );
+    std::fs::write(&path, script).expect("wrapper");
+    std::fs::set_permissions(&path, std::fs::Permissions::from_mode(0o755)).expect("chmod");
+    path
+}
+
+fn prop(c: &Case, info: &mut CaseInfo) -> Verdict {
+    let dir = tempfile::Builder::new().prefix("c38-").tempdir_in(scratch_base()).expect("tmp");
+    let srv = HttpsServer::start();
+    let mut config = client_config(dir.path(), &srv);
+    config.max_object_size = c.limit;
+    let data = body(c.size);
+    let should_use = match c.limit {
+        None => true,
+        Some(l) => c.size <= l,
+    };
+    info.class(format!("carrier:{}", c.carrier.name()));
+    info.class(format!("limit:{}", limit_name(c.limit)));
+    info.class(if should_use { "expect:used" } else { "expect:refused" });
+    let near = match c.limit {
+        Some(l) => c.size + 1 >= l && c.size <= l + 1,
+        None => c.carrier == Carrier::TaHttps && !c.chunked,
+    };
+    info.nt(near);
+    let host = "size.rpki.test";
+    let used: bool;
+    let mut detail = String::new();
+    match c.carrier {
+        Carrier::TaHttps => {
+            config.disable_rsync = true;
+            srv.set(host, "/ta/ta.cer", Resp::ok(data.clone()).chunked(c.chunked));
+            let mut collector = match Collector::new(&config) {
+                Ok(x) => x,
+                Err(_) => return Verdict::Dropped("collector_new_failed".into()),
+            };
+            if collector.ignite().is_err() {
+                return Verdict::Dropped("ignite_failed".into());
+            }
+            let run = collector.start();
+            let got = run.load_ta(&TalUri::Https(uri::Https::from_string(format!("https://{}/ta/ta.cer", host)).unwrap()));
+            if srv.count(host) == 0 {
+                return Verdict::Dropped("no_request_reached_server".into());
+            }
+            used = matches!(&got, Some(b) if b.as_ref() == data.as_slice());
+            detail = format!("load_ta returned {:?} bytes", got.map(|b| b.len()));
+        }
+        Carrier::Snapshot | Carrier::Delta => {
+            config.disable_rsync = true;
+            let mut server = RrdpServer::new(host, "rrdp", 38);
+            let target = "rsync://size.rpki.test/repo/target.roa";
+            let small = "rsync://size.rpki.test/repo/small.roa";
+            let notify = server.notify_uri();
+            let ca = ta_ca_cert(1, &uri::Rsync::from_string("rsync://size.rpki.test/repo/".into()).unwrap(), Some(&notify));
+            let mut collector = match Collector::new(&config) {
+                Ok(x) => x,
+                Err(_) => return Verdict::Dropped("collector_new_failed".into()),
+            };
+            if collector.ignite().is_err() {
+                return Verdict::Dropped("ignite_failed".into());
+            }
+            let install = |server: &RrdpServer, with_snapshot: bool| {
+                srv.clear_host(host);
+                srv.set(host, &server.notify_path(), Resp::ok(server.notification_xml()));
+                if with_snapshot {
+                    srv.set(host, &server.snapshot_path(), Resp::ok(server.snapshot_xml()).chunked(c.chunked));
+                } else {
+                    srv.set(host, &server.snapshot_path(), Resp::status(404));
+                }
+                for d in &server.deltas {
+                    srv.set(host, &server.delta_path(d.serial), Resp::ok(render_delta(&server.session, d.serial, &d.els)).chunked(c.chunked));
+                }
+            };
+            if c.carrier == Carrier::Delta {
+                // first update: a one-byte object through the snapshot (fits every limit >= 1)
+                server.publish(small, Bytes::from_static(b"x"));
+                install(&server, true);
+                let run = collector.start();
+                match run.repository(&ca) {
+                    Ok(Some(r)) if r.is_rrdp() => {}
+                    _ => return Verdict::Dropped("preparatory_snapshot_update_failed".into()),
+                }
+                drop(run);
+                server.publish(target, Bytes::from(data.clone()));
+                install(&server, false);
+            } else {
+                server.publish(target, Bytes::from(data.clone()));
+                install(&server, true);
+            }
+            let _ = srv.take_log();
+            let run = collector.start();
+            let res = run.repository(&ca);
+            let log = srv.take_log();
+            if log.iter().filter(|r| r.method == "GET").count() == 0 {
+                return Verdict::Dropped("no_request_reached_server".into());
+            }
+            let t = uri::Rsync::from_string(target.into()).unwrap();
+            match res {
+                Ok(Some(repo)) if repo.is_rrdp() => match repo.load_object(&t) {
+                    Ok(got) => {
+                        used = matches!(&got, Some(b) if b.as_ref() == data.as_slice());
+                        detail = format!("repository updated, load_object returned {:?} bytes", got.map(|b| b.len()));
+                    }
+                    Err(_) => return Verdict::fail(key(c, "load-object-failed"), "load_object failed on an updated repository"),
+                },
+                Ok(_) => {
+                    used = false;
+                    detail = "repository reported as not updated".into();
+                }
+                Err(_) => return Verdict::fail(key(c, "run-failed"), "Run::repository failed the run"),
+            }
+            if c.carrier == Carrier::Delta {
+                let delta_fetched = log.iter().any(|r| r.path.ends_with("/delta.xml") && r.status == 200);
+                if !delta_fetched {
+                    return Verdict::Dropped("delta_not_requested".into());
+                }
+            }
+        }
+        Carrier::RsyncReal => {
+            config.disable_rrdp = true;
+            config.rsync_command = write_rsync_wrapper(dir.path()).to_string_lossy().into_owned();
+            config.rsync_args = None; // routinator then adds --max-size itself
+            let moddir = dir.path().join("srv/size.rpki.test/repo");
+            std::fs::create_dir_all(&moddir).unwrap();
+            std::fs::write(moddir.join("target.roa"), &data).unwrap();
+            std::fs::write(moddir.join("small.roa"), b"x").unwrap();
+            let ca = ta_ca_cert(1, &uri::Rsync::from_string("rsync://size.rpki.test/repo/".into()).unwrap(), None);
+            let mut collector = match Collector::new(&config) {
+                Ok(x) => x,
+                Err(_) => return Verdict::Dropped("collector_new_failed".into()),
+            };
+            if collector.ignite().is_err() {
+                return Verdict::Dropped("ignite_failed".into());
+            }
+            let run = collector.start();
+            let t = uri::Rsync::from_string("rsync://size.rpki.test/repo/target.roa".into()).unwrap();
+            let s = uri::Rsync::from_string("rsync://size.rpki.test/repo/small.roa".into()).unwrap();
+            match run.repository(&ca) {
+                Ok(Some(repo)) if !repo.is_rrdp() => {
+                    let got = repo.load_object(&t).ok().flatten();
+                    let got_small = repo.load_object(&s).ok().flatten();
+                    let log = rsync_log(dir.path());
+                    let passed_max = log.iter().any(|l| l.starts_with("ARGS") && l.contains("--max-size="));
+                    if c.limit.is_some() != passed_max {
+                        return Verdict::fail(key(c, "max-size-argument"), format!("--max-size passed to rsync: {} with limit {:?}; log {:?}", passed_max, c.limit, log));
+                    }
+                    // the transfer itself must have worked (a 1-byte sibling fits every limit)
+                    if got_small.as_deref() != Some(&b"x"[..]) {
+                        return Verdict::Dropped("real_rsync_transfer_failed".into());
+                    }
+                    used = matches!(&got, Some(b) if b.as_ref() == data.as_slice());
+                    detail = format!("rsync copy holds {:?} bytes", got.map(|b| b.len()));
+                }
+                _ => return Verdict::Dropped("no_rsync_repository".into()),
+            }
+        }
+    }
+    if used != should_use {
+        let what = if should_use { "refused" } else { "accepted" };
+        return Verdict::fail(key(c, what), format!("limit {} object size {} via {} ({}): expected {} but {}", limit_name(c.limit), c.size, c.carrier.name(), if c.chunked { "chunked" } else { "Content-Length" }, if should_use { "the object to be used" } else { "the object to be refused" }, detail));
+    }
+    Verdict::Pass
+}
+
+/// The "default" limit cell: 20 000 000 in the thorough tier. The quick tier uses a 2 000 000 stand-in
+/// because routinator needs 12-28 s per RRDP file once an object exceeds about 10 MB (measured), which
+/// would put the quick tier at several minutes; the limit logic under test does not depend on the value.
+pub fn big_limit(tier: Tier) -> u64 {
+    tier.pick(2_000_000, 20_000_000)
+}
+
+fn cells(big: u64) -> Vec<Case> {
+    let mut res = BTreeSet::new();
+    for limit in [None, Some(1u64), Some(1000), Some(big)] {
+        let sizes: Vec<u64> = match limit {
+            // no L to relate to: empty, tiny, the two finite limits and just above the default limit
+            None => vec![0, 1, 1000, 1001, big + 1],
+            Some(l) => vec![l - 1, l, l + 1, 2 * l, 0],
+        };
+        for size in sizes {
+            for carrier in [Carrier::TaHttps, Carrier::Snapshot, Carrier::Delta, Carrier::RsyncReal] {
+                for chunked in [false, true] {
+                    if carrier == Carrier::RsyncReal && chunked {
+                        continue;
+                    }
+                    res.insert(Case { limit, size, carrier, chunked });
+                }
+            }
+        }
+    }
+    res.into_iter().collect()
+}
+
+fn random_case() -> impl Strategy<Value = Case> {
+    (prop_oneof![Just(None), (1u64..6000).prop_map(Some)], 0u64..4, 0i64..5, prop_oneof![Just(Carrier::TaHttps), Just(Carrier::Snapshot), Just(Carrier::Delta)], any::<bool>(), 0u64..12000).prop_map(|(limit, mode, off, carrier, chunked, free)| {
+        let size = match (limit, mode) {
+            (Some(l), 0) => (l as i64 + off - 2).max(0) as u64,
+            (Some(l), 1) => l * 2 + off as u64,
+            _ => free,
+        };
+        Case { limit, size, carrier, chunked }
+    })
+}
+
+/// Order-preserving parallel map over independent cells.
+pub fn par_map<T: Sync, R: Send>(items: &[T], workers: usize, f: impl Fn(&T) -> R + Sync) -> Vec<R> {
+    let next = std::sync::atomic::AtomicUsize::new(0);
+    let slots: Vec<std::sync::Mutex<Option<R>>> = items.iter().map(|_| std::sync::Mutex::new(None)).collect();
+    std::thread::scope(|scope| {
+        for _ in 0..workers.max(1) {
+            scope.spawn(|| loop {
+                let i = next.fetch_add(1, std::sync::atomic::Ordering::SeqCst);
+                if i >= items.len() {
+                    break;
+                }
+                let r = f(&items[i]);
+                *slots[i].lock().unwrap() = Some(r);
+            });
+        }
+    });
+    slots.into_iter().map(|m| m.into_inner().unwrap().expect("cell evaluated")).collect()
+}
+
+pub fn run(ctx: &Ctx, rep: &mut Report, replay: Option<&serde_json::Value>) {
+    rep.rule("exhaustive product limit {disabled, 1, 1000, BIG} x size {L-1, L, L+1, 2L, 0} (disabled: 0, 1, 1000, 1001, BIG+1), BIG = 20 000 000 in the thorough tier and a 2 000 000 stand-in in the quick tier (time), x carrier {https TA via Run::load_ta, object in RRDP snapshot, object in RRDP delta with the snapshot withheld, real /usr/bin/rsync through a source-rewriting wrapper with routinator's own arguments} x {Content-Length, chunked}; oracle: the published bytes are obtained <=> size <= L or limit disabled; non-trivial = size within 1 of L, or limit disabled with Content-Length on the TA carrier; thorough adds random (limit, size) pairs; distinct by cell");
+    rep.assume("rsync carrier: daemon-less local copy by the real rsync (source rewritten to a local path, --contimeout dropped because it is daemon-only); --max-size is routinator's own argument");
+    if let Some(v) = replay {
+        let t: Tagged<Case> = serde_json::from_value(v.clone()).expect("replay");
+        run_case(ctx, rep, &t.sub, &t.case, prop);
+        return;
+    }
+    let known = is_listed_known("C38", KEY_TA_CL);
+    let complete = true;
+    let mut todo = Vec::new();
+    for c in cells(big_limit(ctx.tier)) {
+        // known shape: limit disabled + https TA + Content-Length; one representative (size 1000) per run
+        if known && c.limit.is_none() && c.carrier == Carrier::TaHttps && !c.chunked && c.size != 1000 {
+            rep.exclude_known(KEY_TA_CL);
+            continue;
+        }
+        todo.push(c);
+    }
+    // cells are independent (own scratch dir, own server): evaluate on 8 threads, record in cell order
+    let results: Vec<(CaseInfo, Verdict)> = par_map(&todo, 8, |c| {
+        let mut info = CaseInfo::default();
+        let v = prop(c, &mut info);
+        (info, v)
+    });
+    for (c, (info, v)) in todo.iter().zip(results) {
+        let tagged = Tagged { sub: "cells".to_string(), case: c.clone() };
+        rep.record(ctx, &tagged, &info, &v);
+    }
+    rep.exhaustive = Some(complete && rep.dropped.is_empty());
+    if ctx.tier == Tier::Thorough {
+        let known_now = known;
+        run_prop(ctx, rep, "random", 400, random_case().prop_filter("known shape", move |c| !(known_now && c.limit.is_none() && c.carrier == Carrier::TaHttps && !c.chunked)), prop);
+    }
 }
